@@ -741,6 +741,17 @@ Proof.
   vm_compute. auto.
 Qed.
 
+(** a second defect: scanFields pairs backslashes (the '=' after an escaped backslash is a real
+    separator), walkFields / FieldIterator look one byte back (that '=' is "escaped"): the line
+    is accepted, the iterator splits it differently and its last value is a lone double quote,
+    on which StringValue() (and Fields()) PANIC.  Line:  m a\\="x=t,b="  *)
+Definition bsl_witness : bytes := [109; 32; 97; 92; 92; 61; 34; 120; 61; 116; 44; 98; 61; 34].
+Lemma accessor_panic_refuted :
+  map (fun p => v_fields (view p)) (fst (parse_points P_ns 0 bsl_witness))
+    = [[([97; 92; 61; 34; 120], VBool true); ([98], VErr 3)]] /\
+  snd (parse_points P_ns 0 bsl_witness) = [].
+Proof. vm_compute. split; reflexivity. Qed.
+
 Lemma errors_name_rejected_lines prec dflt buf :
   map fst (snd (parse_points prec dflt buf))
     = filter (fun t => negb (is_ok (parse_point prec dflt t))) (candidate_lines buf) /\
@@ -768,7 +779,7 @@ Qed.
 Lemma wf_view_sound v : wf_view v = true ->
   v_name v <> [] /\ NoDup (map fst (v_tags v)) /\ fields_within v /\ time_ok (v_time v) = true.
 Proof.
-  unfold wf_view. rewrite !andb_true_iff. intros [[[[H1 H2] H3] H4] H5].
+  unfold wf_view. rewrite !andb_true_iff. intros [[[[[H1 H2] H2b] H3] H4] H5].
   split; [destruct (v_name v); [discriminate|discriminate]|].
   split.
   { clear -H3. induction (map fst (v_tags v)) as [|k r IH]; [constructor|].
